@@ -1,14 +1,274 @@
+// lockx - the C15 translator: extracts from the CURRENT source of package ./server (of the repo given as
+// first argument) every read/write of a shared location (fields of struct types that carry a sync.Mutex,
+// package-level variables that are maps or are written inside function bodies) together with the enclosing
+// function, the goroutine classes that can execute it and the set of mutexes that are provably held
+// (must-hold analysis: structured walk of the AST with intersection at joins, greatest fixpoint over loops and
+// over the call graph for "caller holds the lock" helpers, lock hand-off from a function to the goroutine it
+// starts).  Output: a JSON table (-json) and the Coq table coq/Race/Generated_Accesses.v (-coq).
+//
+// Standard library only (go/ast, go/types; export data of the dependencies through `go list -export`).
 package main
 
 import (
+	"encoding/json"
+	"flag"
 	"fmt"
 	"go/ast"
-
-	"golang.org/x/tools/go/cfg"
+	"go/importer"
+	"go/parser"
+	"go/token"
+	"go/types"
+	"io"
+	"os"
+	"os/exec"
+	"path/filepath"
+	"sort"
+	"strings"
 )
 
+type listPkg struct {
+	ImportPath string
+	Export     string
+	Dir        string
+	GoFiles    []string
+	Error      *struct{ Err string }
+}
+
+var (
+	fset       = token.NewFileSet()
+	info       *types.Info
+	pkg        *types.Package
+	tracked    = map[*types.TypeName]bool{} // struct types with a mutex field
+	globalType = map[string]bool{}          // tracked types assumed to have one instance per process
+	singleFns  = map[string]bool{}          // functions whose go statements start singleton goroutines
+	notes      []string
+	typeErrs   []string
+)
+
+func note(f string, a ...any) { notes = append(notes, fmt.Sprintf(f, a...)) }
+
+func fatal(f string, a ...any) {
+	fmt.Fprintf(os.Stderr, "lockx: "+f+"\n", a...)
+	os.Exit(2)
+}
+
+func load(repo, pkgPath string) []*ast.File {
+	cmd := exec.Command("go", "list", "-export", "-deps", "-json=ImportPath,Export,Dir,GoFiles,Error", pkgPath)
+	cmd.Dir = repo
+	cmd.Stderr = os.Stderr
+	out, err := cmd.Output()
+	exports := map[string]string{}
+	var target *listPkg
+	if err == nil {
+		dec := json.NewDecoder(strings.NewReader(string(out)))
+		for {
+			var p listPkg
+			if e := dec.Decode(&p); e == io.EOF {
+				break
+			} else if e != nil {
+				fatal("go list output: %v", e)
+			}
+			if p.Export != "" {
+				exports[p.ImportPath] = p.Export
+			}
+			q := p
+			target = &q // the named package is listed last
+		}
+	} else {
+		note("go list -export failed (%v): falling back to directory listing, imports unresolved", err)
+	}
+	dir := filepath.Join(repo, strings.TrimPrefix(pkgPath, "./"))
+	var names []string
+	if target != nil && len(target.GoFiles) > 0 {
+		dir, names = target.Dir, target.GoFiles
+	} else {
+		ents, e := os.ReadDir(dir)
+		if e != nil {
+			fatal("%v", e)
+		}
+		for _, en := range ents {
+			n := en.Name()
+			if strings.HasSuffix(n, ".go") && !strings.HasSuffix(n, "_test.go") && !strings.HasSuffix(n, "_windows.go") {
+				names = append(names, n)
+			}
+		}
+	}
+	var files []*ast.File
+	for _, n := range names {
+		f, e := parser.ParseFile(fset, filepath.Join(dir, n), nil, parser.SkipObjectResolution)
+		if e != nil {
+			fatal("parse %s: %v", n, e)
+		}
+		files = append(files, f)
+	}
+	lookup := func(path string) (io.ReadCloser, error) {
+		if p, ok := exports[path]; ok {
+			return os.Open(p)
+		}
+		return nil, fmt.Errorf("no export data for %s", path)
+	}
+	conf := types.Config{
+		Importer: importer.ForCompiler(fset, "gc", lookup),
+		Error:    func(e error) { typeErrs = append(typeErrs, e.Error()) },
+	}
+	info = &types.Info{
+		Types:      map[ast.Expr]types.TypeAndValue{},
+		Defs:       map[*ast.Ident]types.Object{},
+		Uses:       map[*ast.Ident]types.Object{},
+		Selections: map[*ast.SelectorExpr]*types.Selection{},
+		Implicits:  map[ast.Node]types.Object{},
+	}
+	pkg, _ = conf.Check("github.com/ollama/ollama/server", fset, files, info)
+	if pkg == nil {
+		fatal("type check produced no package")
+	}
+	return files
+}
+
+// ---- type helpers
+
+func deref(t types.Type) types.Type {
+	if t == nil {
+		return nil
+	}
+	if p, ok := t.Underlying().(*types.Pointer); ok {
+		return p.Elem()
+	}
+	return t
+}
+
+func namedOf(t types.Type) *types.TypeName {
+	t = deref(t)
+	if n, ok := t.(*types.Named); ok {
+		return n.Obj()
+	}
+	if a, ok := t.(*types.Alias); ok {
+		return namedOf(types.Unalias(a))
+	}
+	return nil
+}
+
+func isPkgType(t types.Type, path string, names ...string) bool {
+	tn := namedOf(t)
+	if tn == nil || tn.Pkg() == nil || tn.Pkg().Path() != path {
+		return false
+	}
+	if len(names) == 0 {
+		return true
+	}
+	for _, n := range names {
+		if tn.Name() == n {
+			return true
+		}
+	}
+	return false
+}
+
+func isMutex(t types.Type) bool { return isPkgType(t, "sync", "Mutex", "RWMutex") }
+
+// internally synchronised: never reported as plain accesses
+func isSyncObj(t types.Type) bool { return isPkgType(t, "sync") || isPkgType(t, "sync/atomic") }
+
+func isPointer(t types.Type) bool {
+	if t == nil {
+		return false
+	}
+	_, ok := t.Underlying().(*types.Pointer)
+	return ok
+}
+
+func isMap(t types.Type) bool {
+	if t == nil {
+		return false
+	}
+	_, ok := t.Underlying().(*types.Map)
+	return ok
+}
+
+func isArray(t types.Type) bool {
+	if t == nil {
+		return false
+	}
+	_, ok := t.Underlying().(*types.Array)
+	return ok
+}
+
+func structOf(tn *types.TypeName) *types.Struct {
+	if tn == nil {
+		return nil
+	}
+	s, _ := tn.Type().Underlying().(*types.Struct)
+	return s
+}
+
+func findTracked() {
+	sc := pkg.Scope()
+	for _, n := range sc.Names() {
+		tn, ok := sc.Lookup(n).(*types.TypeName)
+		if !ok {
+			continue
+		}
+		st := structOf(tn)
+		if st == nil {
+			continue
+		}
+		for i := 0; i < st.NumFields(); i++ {
+			if isMutex(st.Field(i).Type()) && !isPointer(st.Field(i).Type()) {
+				tracked[tn] = true
+			}
+		}
+	}
+}
+
+func trackedName(t types.Type) (string, bool) {
+	tn := namedOf(t)
+	if tn != nil && tracked[tn] {
+		return tn.Name(), true
+	}
+	return "", false
+}
+
+func posStr(p token.Pos) string {
+	q := fset.Position(p)
+	return fmt.Sprintf("%s:%d:%d", filepath.Base(q.Filename), q.Line, q.Column)
+}
+
 func main() {
-	var b *ast.BlockStmt
-	_ = cfg.New
-	fmt.Println(b == nil)
+	jsonOut := flag.String("json", "", "write the table as JSON to this file (default stdout)")
+	coqOut := flag.String("coq", "", "write Generated_Accesses.v to this file")
+	globals := flag.String("global", "Scheduler", "comma separated tracked types with one instance per process")
+	singles := flag.String("single", "Scheduler.Run", "comma separated functions whose go statements start singleton goroutines (if called from exactly one place)")
+	pkgPath := flag.String("pkg", "./server", "package to analyse")
+	waive := flag.String("waive", "", "semicolon separated `function|location` pairs rendered as the Coq list `waived` (recorded findings)")
+	flag.Parse()
+	if flag.NArg() < 1 {
+		fatal("usage: lockx [flags] <repo dir>")
+	}
+	for _, g := range strings.Split(*globals, ",") {
+		globalType[strings.TrimSpace(g)] = true
+	}
+	for _, g := range strings.Split(*singles, ",") {
+		singleFns[strings.TrimSpace(g)] = true
+	}
+	files := load(flag.Arg(0), *pkgPath)
+	findTracked()
+	tab := analyse(files)
+	tab.TypeErrors = typeErrs
+	if len(tab.TypeErrors) > 20 {
+		tab.TypeErrors = tab.TypeErrors[:20]
+	}
+	sort.Strings(notes)
+	tab.Notes = append([]string{}, notes...)
+	tab.TypeErrors = append([]string{}, tab.TypeErrors...)
+	b, _ := json.MarshalIndent(tab, "", " ")
+	if *jsonOut == "" {
+		os.Stdout.Write(append(b, '\n'))
+	} else if err := os.WriteFile(*jsonOut, append(b, '\n'), 0o644); err != nil {
+		fatal("%v", err)
+	}
+	if *coqOut != "" {
+		if err := os.WriteFile(*coqOut, []byte(renderCoq(tab, *waive)), 0o644); err != nil {
+			fatal("%v", err)
+		}
+	}
 }
